@@ -20,6 +20,7 @@ type form struct {
 	method uint16
 	tx     string // "", "zero", "ff", "shared", "retx"
 	attrs  func(b *wire.B)
+	as     string // present the credentials of this other user (valid ones) from the client's own 5-tuple
 	// want returns the expected response class ("success", "error", "none", "nonsuccess") and, where the
 	// property names one, the error code (0 = any).
 	want func(a *vtx.MAlloc) (string, int)
@@ -60,6 +61,9 @@ func forms() []form {
 		{name: "binding", method: wire.Binding, want: func(*vtx.MAlloc) (string, int) { return "success", 0 }},
 		{name: "alloc", method: wire.Allocate, attrs: udp, want: allocOK},
 		{name: "alloc-retx", method: wire.Allocate, tx: "retx", attrs: udp, want: func(a *vtx.MAlloc) (string, int) { return "success", 0 }},
+		// a different user (valid credentials) on the occupied 5-tuple: 437 and nothing changes (sent only when occupied)
+		{name: "alloc-other-user", method: wire.Allocate, attrs: udp, as: "u2", want: errIfAlloc(0)},
+		{name: "alloc-other-user-evenport", method: wire.Allocate, as: "u2", attrs: func(b *wire.B) { udp(b); b.Attr(wire.AttrEvenPort, []byte{0x80}) }, want: errIfAlloc(0)},
 		{name: "alloc-no-transport", method: wire.Allocate, want: errIfAlloc(400)},
 		{name: "alloc-transport-len3", method: wire.Allocate, attrs: func(b *wire.B) { b.Attr(wire.AttrRequestedTransport, []byte{17, 0, 0}) }, want: errIfAlloc(400)},
 		{name: "alloc-proto99", method: wire.Allocate, attrs: func(b *wire.B) { b.U32(wire.AttrRequestedTransport, 99<<24) }, want: errIfAlloc(442)},
@@ -213,6 +217,9 @@ func runSeq(t *testing.T, wd world, fs []form, seq []int, r *rep.Report, record 
 				now := time.Now()
 				x.M.Expire(now)
 				a = x.M.Allocs[cn]
+				if f.as != "" && a == nil {
+					continue // only meaningful on an occupied 5-tuple
+				}
 				tx := txFor(f.tx, a, w)
 				isRetx := a != nil && tx != nil && *tx == a.Tx && f.method == wire.Allocate
 				mark := w.Net.Mark()
@@ -228,7 +235,12 @@ func runSeq(t *testing.T, wd world, fs []form, seq []int, r *rep.Report, record 
 					w.GenFailNext = 1
 				}
 				w.QuotaDeny = f.name == "alloc-quota-refused"
+				user0, pass0 := c.User, c.Pass
+				if f.as != "" {
+					c.User, c.Pass = f.as, vtx.Users[f.as]
+				}
 				res := c.Request(f.method, tx, f.attrs)
+				c.User, c.Pass = user0, pass0
 				w.GenFailNext, w.QuotaDeny = 0, false
 				lbl := fmt.Sprintf("%s:%s[tx=%s]", cn, f.name, f.tx)
 				fail := func(sig, detail string) {
